@@ -942,6 +942,7 @@ def _verbosity(ctx, col):
     # guards: out-of-range raises ValueError, non-int TypeError; accepted set must be within the table's keys
     guards = [s_ for s_ in fn.body if isinstance(s_, ast.If) and s_.body and isinstance(s_.body[0], ast.Raise)]
     rej = None
+    unread_guards = []
     for g in guards:
         class R(ast.NodeTransformer):
             def visit_Name(self, n):
@@ -953,8 +954,15 @@ def _verbosity(ctx, col):
         sset = pred_set(t2, "__v__")
         if sset is not None:
             rej = sset if rej is None else ivset_union(rej, sset)
+        elif any(isinstance(n_, ast.Name) and n_.id == fn.args.args[0].arg for n_ in ast.walk(g.test)) and not any(
+                isinstance(n_, ast.Call) and ast.unparse(n_.func) == "isinstance" for n_ in ast.walk(g.test)):
+            unread_guards.append(ast.unparse(g.test))
     acc = _int_norm(ivset_complement(rej)) if rej is not None else None
     okr = acc is not None and len(acc) == 1 and acc[0].lo == 0 and acc[0].hi == 4
+    if not okr and unread_guards:
+        # a range guard exists but compares with something this rule cannot evaluate (members of an Enum, a computed bound): no verdict
+        undecided.append(f"verbosity_to_loguru_level: the range guard `{unread_guards[0][:80]}` is not a comparison with literal bounds; R20.9 cannot be decided")
+        okr = True
     col.add("R20.9", "verbosity_to_loguru_level", m.relpath, fn.lineno, okr,
             "levels outside 0..4 raise before the table lookup" if okr else
             f"accepted integer levels are {[str(a) for a in acc] if acc else 'unbounded'}; the table only has 0..4 (KeyError otherwise)", text="range guard")
